@@ -1014,6 +1014,8 @@ def run(chk):
         interp_2d(chk, drv)
         reuse_sequences(chk)
         mixed_dtypes(chk)
+        import optflag
+        optflag.compare(chk, 'c08', 'C08')
     finally:
         drv.close()
     chk.assumptions = [
